@@ -29,7 +29,8 @@ What `wellFormed` asks (each item is a constructor's validation or an identifier
   zero is not printed: known finding C03/negative-zero-literal), CALL immediates finite and not `-0.0`;
 * definitions are complete (what the grammar can express): non-empty bodies, matrices, permutations, term
   lists, attribute lists; PAULI-SUM words non-empty; bodies of DEFCAL / DEFCAL MEASURE / DEFCIRCUIT contain
-  no definitions (`bodyKind`), DEFCIRCUIT bodies no string with a newline;
+  no definitions (`bodyKind`: a nested definition's block greedily takes the following lines of the outer
+  body when read back, so `DEFCAL X: [DEFCAL Y: [A], B]` cannot be expressed in the grammar);
 * the three printer / parser ambiguities recorded as known findings of C02 are excluded: a real literal
   directly followed by the name `i` (RAW-CAPTURE region, CALL argument).
 -/
@@ -133,24 +134,6 @@ def bodyKind : Instruction → Bool
   | .gateDefinition _ | .frameDefinition _ | .waveformDefinition _ | .declaration _ => false
   | _ => true
 
-def noNewline (s : String) : Bool := !s.toList.contains '\n'
-
-/-- the strings of a single-line instruction contain no newline (needed inside DEFCIRCUIT bodies only) -/
-def stringsOneLine : Instruction → Bool
-  | .capture c => noNewline c.frame.name
-  | .pulse p => noNewline p.frame.name
-  | .rawCapture r => noNewline r.frame.name
-  | .setFrequency s => noNewline s.frame.name
-  | .setPhase s => noNewline s.frame.name
-  | .setScale s => noNewline s.frame.name
-  | .shiftFrequency s => noNewline s.frame.name
-  | .shiftPhase s => noNewline s.frame.name
-  | .swapPhases s => noNewline s.frame1.name && noNewline s.frame2.name
-  | .delay d => d.frameNames.all noNewline
-  | .include i => noNewline i.filename
-  | .pragma p => (match p.data with | some d => noNewline d | none => true)
-  | _ => true
-
 mutual
 def wellFormed : Instruction → Bool
   | .arithmetic a => memRefOk a.destination && arithOk a.source
@@ -162,7 +145,7 @@ def wellFormed : Instruction → Bool
   | .capture c => frameOk c.frame && invocationOk c.waveform && memRefOk c.memoryReference
   | .circuitDefinition name ps qvs body =>
     identName name && ps.all identShape && qvs.all identName && !body.isEmpty && body.all bodyKind &&
-      body.all stringsOneLine && wellFormeds body
+      wellFormeds body
   | .convert c => memRefOk c.destination && memRefOk c.source
   | .comparison c => memRefOk c.destination && memRefOk c.lhs && compOk c.rhs
   | .declaration d =>
